@@ -43,19 +43,73 @@ def tri(x):
     return None if x is None else bool(x)
 
 
+class RichResult(ComparatorResult):
+    """a comparator's own flavour of ComparatorResult (module level: it crosses a real process boundary)"""
+
+    def __init__(self, equality_status, message=None, diff=None, detail=None):
+        super(RichResult, self).__init__(equality_status, message, diff)
+        self.detail = detail
+
+
+FOREIGN_STATUS = {'none': None, 'true': True, 'name': 'Equal'}
+
+
+def shaped_verdict(b, r):
+    """what the comparator returns for recording r under a verdict-shape behaviour (lib/eqgen.SHAPE_BEH), else None"""
+    if b.startswith('foreign:'):
+        return True, FOREIGN_STATUS[b[8:]]
+    if not b.startswith('cr:'):
+        return False, None
+    _, st, m, d, k = b.split(':')
+    status = FOREIGN_STATUS[st] if st in FOREIGN_STATUS else EqualityStatus[st]
+    message = {'none': None, 'text': 'cmp', 'falsy': {}, 'struct': {'recorded': ['rec', r], 'played': ['play', r]},
+               'num': 7}[m]
+    diff = {'of': r} if d == '1' else None
+    if k == 'sub':
+        return True, RichResult(status, message, diff, detail='detail-of-' + r)
+    return True, ComparatorResult(status, message, diff)
+
+
+RENDER = [re.compile(r'^can only concatenate str \(not "\w+"\) to str$'),       # u' - ' + message, message not text
+          re.compile(r"^'\w+' object has no attribute 'name'$")]                  # equality_status.name, no enum member
+
+
+def msg_kind(msg):
+    if msg is None:
+        return 'none'
+    if not isinstance(msg, str):
+        return 'struct' if msg else 'falsy'
+    if msg in MSG:
+        return MSG[msg]
+    if any(p.match(msg) for p in RENDER):
+        return 'render'
+    return 'other:' + msg[:60]
+
+
 def proj(c):
-    """the property's projection of one Comparison"""
+    """the property's projection of one Comparison: label, verdict (status, message kind, diff, class), attached
+    replay, presence of expected / actual, exception flags"""
     st = c.comparator_status
-    msg = getattr(st, 'message', None)
     pb = c.playback
     if pb is None:
         att = None
     else:
         att = unrid(getattr(getattr(pb, 'original_recording', None), 'id', None))
-    return [unrid(c.recording_id), getattr(getattr(st, 'equality_status', None), 'name', repr(st)),
-            'none' if msg is None else MSG.get(msg, 'other:' + str(msg)[:60]),
+    es = getattr(st, 'equality_status', None)
+    diff = getattr(st, 'diff', None)
+    if diff is not None:
+        diff = unrid(diff.get('of')) if isinstance(diff, dict) and set(diff) == {'of'} else 'other:' + str(diff)[:40]
+    if type(st) is ComparatorResult:
+        cls = 'plain'
+    elif type(st) is RichResult and isinstance(c.recording_id, str) and \
+            getattr(st, 'detail', None) == 'detail-of-' + c.recording_id:
+        cls = 'sub'
+    else:
+        cls = 'other:%s:%s' % (type(st).__name__, str(getattr(st, 'detail', None))[:40])
+    return [unrid(c.recording_id), es.name if isinstance(es, EqualityStatus) else 'foreign:' + type(es).__name__,
+            msg_kind(getattr(st, 'message', None)),
             att, c.expected is not None, c.actual is not None,
-            tri(c.expected_is_exception), tri(c.actual_is_exception)]
+            tri(c.expected_is_exception), tri(c.actual_is_exception), diff, cls]
 
 
 class PB(object):
@@ -102,6 +156,9 @@ def run_once(ids, beh, dedicated, rate, timeout, keep, consume):
                 raise ValueError('boom-comparator')
             if b.startswith('bare:'):
                 return EqualityStatus[b[5:]]
+            shaped, verdict = shaped_verdict(b, r)
+            if shaped:
+                return verdict
             if b == 'different':
                 return ComparatorResult(EqualityStatus.Different, 'cmp')
             return ComparatorResult(EqualityStatus.Equal, 'cmp')
@@ -173,6 +230,11 @@ def run_once(ids, beh, dedicated, rate, timeout, keep, consume):
             outcome = 'abort-exit'
         except fake_mp.WorkerHang:
             outcome = 'blocks'
+        except Exception as ex:      # pylint: disable=broad-except
+            # something left run_comparison that is neither the consumer's nor the id source's: the run is over,
+            # the remaining recordings get nothing
+            outcome = 'escaped:' + type(ex).__name__
+            sim.why = sim.why or str(ex)[:200]
         gc.collect()    # a dropped, suspended generator is closed by its finaliser (runs the finally block)
         if sim.frozen is not None:
             # the parent blocked for ever inside a finally block that ran in the generator's finaliser (the
